@@ -6,6 +6,7 @@ package cdesc
 
 import (
 	"fmt"
+	"reflect"
 	"sort"
 	"strings"
 
@@ -17,6 +18,7 @@ import (
 	"google.golang.org/protobuf/reflect/protoregistry"
 	"google.golang.org/protobuf/types/descriptorpb"
 	"google.golang.org/protobuf/types/dynamicpb"
+	_ "google.golang.org/protobuf/types/known/emptypb" // registers google/protobuf/empty.proto
 )
 
 // Node kinds.
@@ -32,7 +34,8 @@ const (
 	FMap    = 2 // map<string, M> (messages only)
 )
 
-// Node is one type of the universe. Node i has the model name i.
+// Node is one type of the universe. Node i has the model name i+1 (the model
+// reserves the name 0 for a field of an unsupported type).
 type Node struct {
 	Kind  int   `json:"kind"`
 	Pkg   int   `json:"pkg"`
@@ -45,7 +48,15 @@ type Node struct {
 	// named "type" (a j5 oneof wrapper message: no label field, all references single messages).
 	Expose  [][]int `json:"expose,omitempty"`
 	Wrapper bool    `json:"wrapper,omitempty"`
+
+	// Bad = k > 0: a field of type google.protobuf.Empty, which the reflector rejects
+	// ("unsupported google type"), is declared after the first k-1 references: the type
+	// cannot be reflected, nor can any type from which it is reachable.
+	Bad int `json:"bad,omitempty"`
 }
+
+// Name is the model's name of node i.
+func Name(i int) int { return i + 1 }
 
 // Rich reports whether the universe uses features outside the Coq model.
 func (u *Universe) Rich() bool {
@@ -106,6 +117,9 @@ func (u *Universe) Valid() error {
 				return fmt.Errorf("node %d: wrapper member %d is not a single message", i, k)
 			}
 		}
+		if n.Bad < 0 || n.Bad > len(n.Refs)+1 || (n.Bad > 0 && (n.Kind != KMsg || n.Wrapper || len(n.Expose) > 0)) {
+			return fmt.Errorf("node %d: bad position", i)
+		}
 		if n.Wrapper && (len(n.Refs) == 0 || len(n.Expose) > 0) {
 			return fmt.Errorf("node %d: bad wrapper", i)
 		}
@@ -164,6 +178,7 @@ func (u *Universe) Build() (*Built, error) {
 		}
 		deps := map[int]bool{}
 		usesExt := false
+		usesStruct := false
 		for i, n := range u.Nodes {
 			if n.Pkg != p {
 				continue
@@ -203,7 +218,19 @@ func (u *Universe) Build() (*Built, error) {
 				}
 				usesExt = true
 			}
+			addBad := func() {
+				md.Field = append(md.Field, &descriptorpb.FieldDescriptorProto{
+					Name: proto.String("unsup"), JsonName: proto.String("unsup"), Number: proto.Int32(900),
+					Type:     descriptorpb.FieldDescriptorProto_TYPE_MESSAGE.Enum(),
+					TypeName: proto.String(".google.protobuf.Empty"),
+					Label:    descriptorpb.FieldDescriptorProto_LABEL_OPTIONAL.Enum(),
+				})
+				usesStruct = true
+			}
 			for k, j := range n.Refs {
+				if n.Bad == k+1 {
+					addBad()
+				}
 				if u.Nodes[j].Pkg != p {
 					deps[u.Nodes[j].Pkg] = true
 				}
@@ -243,6 +270,9 @@ func (u *Universe) Build() (*Built, error) {
 				}
 				md.Field = append(md.Field, f)
 			}
+			if n.Bad == len(n.Refs)+1 {
+				addBad()
+			}
 			fd.MessageType = append(fd.MessageType, md)
 		}
 		var ds []int
@@ -255,6 +285,9 @@ func (u *Universe) Build() (*Built, error) {
 		}
 		if usesExt {
 			fd.Dependency = append(fd.Dependency, "j5/ext/v1/annotations.proto")
+		}
+		if usesStruct {
+			fd.Dependency = append(fd.Dependency, "google/protobuf/empty.proto")
 		}
 		file, err := protodesc.NewFile(fd, withGlobal{files})
 		if err != nil {
@@ -334,7 +367,7 @@ func (t *Tree) Linked() bool {
 
 func (b *Built) id(full string) int {
 	if i, ok := b.ids[full]; ok {
-		return i
+		return Name(i)
 	}
 	return 999999
 }
@@ -380,7 +413,8 @@ func (b *Built) UnfoldRef(k int, ref *j5schema.RefSchema) *Tree {
 		return &Tree{Tag: "bad"}
 	}
 	name := b.id(ref.FullName())
-	if ref.To == nil {
+	if nilSchema(ref.To) {
+		// To == nil, or the typed nil pointer a failed build leaves: no usable schema
 		return &Tree{Tag: "unlinked", Name: name}
 	}
 	return b.unfoldRoot(k, name, ref.To)
@@ -403,18 +437,48 @@ func (b *Built) unfoldRoot(k int, name int, root j5schema.RootSchema) *Tree {
 
 // UnfoldRoot is the unfolding of a schema returned by SchemaCache.Schema.
 func (b *Built) UnfoldRoot(k int, root j5schema.RootSchema) *Tree {
-	if root == nil {
+	if nilSchema(root) {
 		return &Tree{Tag: "bad"}
 	}
 	return b.unfoldRoot(k, b.id(root.FullName()), root)
 }
 
+func nilSchema(s j5schema.RootSchema) bool {
+	if s == nil {
+		return true
+	}
+	v := reflect.ValueOf(s)
+	return v.Kind() == reflect.Ptr && v.IsNil()
+}
+
+// Good reports whether node i can be reflected: no node reachable from it has an unsupported field.
+func (u *Universe) Good(i int) bool {
+	seen := map[int]bool{}
+	var visit func(i int) bool
+	visit = func(i int) bool {
+		if seen[i] {
+			return true
+		}
+		seen[i] = true
+		if u.Nodes[i].Bad > 0 {
+			return false
+		}
+		for _, j := range u.Nodes[i].Refs {
+			if !visit(j) {
+				return false
+			}
+		}
+		return true
+	}
+	return visit(i)
+}
+
 // GUnfold is coq's gunfold: the unfolding read off the universe.
 func (u *Universe) GUnfold(k int, i int) *Tree {
 	if k == 0 {
-		return &Tree{Tag: "cut", Name: i}
+		return &Tree{Tag: "cut", Name: Name(i)}
 	}
-	t := &Tree{Tag: "node", Name: i, Kids: []*Tree{}}
+	t := &Tree{Tag: "node", Name: Name(i), Kids: []*Tree{}}
 	for _, j := range u.Nodes[i].Refs {
 		t.Kids = append(t.Kids, u.GUnfold(k-1, j))
 	}
@@ -425,11 +489,17 @@ func (u *Universe) GUnfold(k int, i int) *Tree {
 func (u *Universe) CoqGraph() string {
 	var parts []string
 	for i, n := range u.Nodes {
-		rs := make([]string, len(n.Refs))
+		var rs []string
 		for k, j := range n.Refs {
-			rs[k] = fmt.Sprint(j)
+			if n.Bad == k+1 {
+				rs = append(rs, "0")
+			}
+			rs = append(rs, fmt.Sprint(Name(j)))
 		}
-		parts = append(parts, fmt.Sprintf("(%d,[%s])", i, strings.Join(rs, ";")))
+		if n.Bad == len(n.Refs)+1 {
+			rs = append(rs, "0")
+		}
+		parts = append(parts, fmt.Sprintf("(%d,[%s])", Name(i), strings.Join(rs, ";")))
 	}
 	return "[" + strings.Join(parts, ";") + "]"
 }
